@@ -547,13 +547,17 @@ def rhe(x, k):
     return n
 
 
-def rounded_tuple(mol, input_geometry=None, input_masses=None):
+def rounded_tuple(mol, input_geometry=None, input_masses=None, input_bonds="stored"):
     """`input_geometry`: for a molecule built from keyword arguments the identity is that of the coordinates handed in
     (the constructor stores them already rounded AND zero-flipped).  `input_masses`: likewise the masses the caller
     supplied (a validation that replaces a supplied mass by a nearby tabulated one must not hide a mass edit)."""
     conn = mol.connectivity
     geom = np.asarray(mol.geometry).ravel() if input_geometry is None else input_geometry
     bonds = None if conn is None else tuple(sorted((min(int(a), int(b)), max(int(a), int(b)), Fraction(float(o))) for a, b, o in conn))
+    if input_bonds != "stored":
+        # the bonds the caller SUPPLIED (orders in eighths), up to listing order and orientation: a validation that alters a bond
+        # order must not hide an edit of it
+        bonds = None if input_bonds is None else tuple(sorted((min(int(a), int(b)), max(int(a), int(b)), Fraction(int(o), 8)) for a, b, o in input_bonds))
     return (
         tuple(str(s) for s in mol.symbols),
         tuple(rhe(x, 6) for x in (np.asarray(mol.masses).ravel() if input_masses is None else input_masses)),
@@ -1218,13 +1222,15 @@ class Member:
         self.label, self.spec, self.route, self.mol, self.expect = label, spec, route, mol, expect
         self.hash = mol.get_hash()
         ig = im = None
+        ib = "stored"
         if route == "kwargs" and isinstance(spec, dict) and "v" in spec:
             ig = geometry_of(spec)
             im = masses_of(spec)
+            ib = spec.get("connectivity")
         elif route == "kwargs-literal" and isinstance(spec.get("kwargs"), dict):
             ig = [float(x) for x in spec["kwargs"]["geometry"]]
         self.rt = rounded_tuple(mol)  # the stored attributes
-        self.rt_in = rounded_tuple(mol, ig, im) if ig is not None else None  # identity of what was handed to the constructor
+        self.rt_in = rounded_tuple(mol, ig, im, ib) if ig is not None else None  # identity of what was handed to the constructor
 
 
 CLAUSE_KIND = {
@@ -1244,7 +1250,7 @@ def case_of(base: Member, other: Member, seed_note=None):
     return c
 
 
-EQ_FORMS = ["a==b", "b==a", "a!=b", "b!=a", "a==b.dict()", "b==a.dict()"]
+EQ_FORMS = ["a==b", "b==a", "a!=b", "b!=a", "a==b.dict()", "b==a.dict()", "a==kwargs(b)"]
 
 
 def check_eq(out: Outcome, a: Member, b: Member, heq: bool, forms) -> bool:
@@ -1267,6 +1273,12 @@ def check_eq(out: Outcome, a: Member, b: Member, heq: bool, forms) -> bool:
                     got[f] = bool(a.mol == b.mol.dict())
                 elif f == "b==a.dict()":
                     got[f] = bool(b.mol == a.mol.dict())
+                elif f == "a==kwargs(b)":
+                    # the dictionary operand as a caller writes it (the very keyword arguments b was built from: unvalidated,
+                    # bonds in any orientation/order, charges left to the validator), not b's own validated record
+                    if b.route != "kwargs" or not isinstance(b.spec, dict) or "v" not in b.spec:
+                        continue
+                    got[f] = bool(a.mol == kwargs_of(b.spec))
                 out.count("eq_form:" + f)
     except Exception as e:  # noqa
         out.violations.append(Finding("oracle:eq_raises", case_of(a, b), observed=err_class(e), detail="==/!= raised on two molecules"))
